@@ -330,7 +330,7 @@ func cmdSessions(args []string) {
 						if shared {
 							a = append(a, "--shared")
 						}
-						o, _, _ = runCmd(rec.Dir, 60*time.Second, nil, *node, a...)
+						o, _, _ = runCmd(rec.Dir, 60*time.Second, []string{"NODE_NO_WARNINGS=1"}, *node, a...)
 					}
 					runs, _ := splitRuns(o)
 					var res []string
